@@ -37,6 +37,9 @@ pub struct Outcome {
     pub classes: Vec<String>,
     /// the case written out for a reader
     pub rendered: String,
+    /// generator-independent encoding of the case (replayed through `run_text`);
+    /// replay files prefer it so that later generator changes cannot alter them
+    pub portable: Option<String>,
 }
 
 impl Outcome {
@@ -48,6 +51,7 @@ impl Outcome {
             key,
             classes: vec![],
             rendered,
+            portable: None,
         }
     }
     pub fn discard(reason: &str, rendered: String) -> Self {
@@ -58,6 +62,7 @@ impl Outcome {
             key,
             classes: vec![],
             rendered,
+            portable: None,
         }
     }
     pub fn fail(&mut self, sig: &str, msg: String) {
@@ -86,7 +91,7 @@ impl Outcome {
             Verdict::Discard(r) => ("discard", String::new(), r.clone()),
         };
         json!({"v": v, "sig": sig, "msg": msg, "nt": self.nontrivial,
-               "key": format!("{:x}", self.key), "cls": self.classes, "r": self.rendered})
+               "key": format!("{:x}", self.key), "cls": self.classes, "r": self.rendered, "p": self.portable})
     }
 
     pub fn from_json(j: &J) -> Option<Outcome> {
@@ -109,6 +114,7 @@ impl Outcome {
                 .filter_map(|c| c.as_str().map(|s| s.to_string()))
                 .collect(),
             rendered: j.get("r")?.as_str()?.to_string(),
+            portable: j.get("p").and_then(|p| p.as_str()).map(|s| s.to_string()),
         })
     }
 }
@@ -188,6 +194,10 @@ pub trait Property {
         16
     }
     fn budget(&self, tier: Tier) -> Budget;
+    /// proptest shrink iterations per failing shard
+    fn shrink_iters(&self) -> u32 {
+        1500
+    }
     /// number of enumerated (index-addressed) cases for this tier
     fn fixed_count(&mut self, _tier: Tier) -> u64 {
         0
